@@ -148,13 +148,8 @@ Definition same_archive (a a' : archive) : Prop :=
 (* the image of an archive of C01's domain is no longer than C01's size bound *)
 Lemma serialize_size kf m a f : wf_archive a -> fits32 a -> BinFormat.serialize_k kf m a = Ok f -> lenN f <= ser_bound a.
 Proof.
-  intros WF FIT Ef.
-  destruct (ser_facts kf a WF) as (d2 & tpool2 & groups & ltab & Es & L2 & W2 & Hptr & Hstr & Hnth & Hok2 & Wp & Hlen & Erl & HF & Hperm).
-  assert (E : f = image_of a d2 tpool2 groups ltab).
-  { rewrite serialize_unfold, Es in Ef. cbn [bind] in Ef. rewrite (assemble_ok kf a WF FIT d2 tpool2 groups ltab) in Ef by assumption.
-    inversion Ef. reflexivity. }
-  rewrite E, (lenN_image kf a d2 tpool2 groups ltab L2 Hlen Hptr Hstr).
-  exact (fsz_bound kf a WF FIT d2 tpool2 groups ltab L2 Hok2 Hlen HF Hperm Hptr Hstr).
+  intros WF FIT Ef. destruct (serialize_ok_length kf m a f WF Ef) as [L _]. rewrite L.
+  apply image_size_bound; [exact WF | apply fits32_size; exact FIT].
 Qed.
 
 Lemma small_fits32 a : ser_bound a < 2 ^ 24 -> fits32 a.
